@@ -95,7 +95,7 @@ class Run:
             if st["phase"] == "accept":
                 p = st["p"]
                 vals = {0.0, 1.0 - 1e-12}
-                for x in (p * (1 - 1e-9), p * (1 + 1e-9)):
+                for x in (p * (1 - 1e-9), p, p * (1 + 1e-9)):       # both sides of p and p itself (accept iff u < p, strictly)
                     if 0.0 <= x < 1.0:
                         vals.add(x)
                 return sorted(vals)
@@ -556,7 +556,7 @@ def run(tier, seed, t0):
              "f-updates; one with f == threshold exactly, five with the threshold at or above the initial f = e: zero steps; four with flat-check periods 41/45/64/70 and three with flatness criterion 0) x base tapes derived from VERIF_SEED x ALL tapes within d deviations of the "
              "base tape (%s), horizon 400 choice points, retry bound inside a move. Menus: every value of every _randbelow (cap 12), "
              "one float inside each of the four move-selection intervals, both sides of the 0.5 coin, and for the acceptance draw "
-             "{0, p(1-1e-9), p(1+1e-9), 1-1e-12} with p computed by the reference model. The reference WL machine consumes the hook's "
+             "{0, p(1-1e-9), p, p(1+1e-9), 1-1e-12} with p computed by the reference model. The reference WL machine consumes the hook's "
              "proposal/step/flatcheck events (transitions) and predicts: proposal is a rearrangement with its true kappa and bin, "
              "range test, acceptance probability min(1,exp(g_old-g_new)) / 0 outside, decision <=> u<p, g/H update of the occupied "
              "bin, flat-check schedule, flatness test, f <- sqrt f, H reset, stop <=> f <= threshold; completed runs: returned array, "
